@@ -546,11 +546,9 @@ func evStr(w *World, i int, e *workflow.Event) string {
 func (s *Sender) Send(ctx context.Context, foreignID string, statusType int, headers map[workflow.Header]string) error {
 	w := s.w
 	return w.call(ctx, "send", func() (string, error) {
-		h := map[workflow.Header]string{}
-		for k, v := range headers {
-			h[k] = v
-		}
-		e := &workflow.Event{ID: int64(len(w.log)) + 1, ForeignID: foreignID, Type: statusType, Headers: h, CreatedAt: w.Clk.Now()}
+		// like the bundled in-memory streamer, the log keeps the map it is handed (no copy): a caller that reuses one map for several
+		// events rewrites the events it has already published
+		e := &workflow.Event{ID: int64(len(w.log)) + 1, ForeignID: foreignID, Type: statusType, Headers: headers, CreatedAt: w.Clk.Now()}
 		w.Mon.onSend(s.topic, e)
 		w.log = append(w.log, e)
 		return "(" + evStr(w, len(w.log)-1, e) + ",t" + strconv.Itoa(statusType) + ")", nil
@@ -587,6 +585,15 @@ func (r *Receiver) Recv(ctx context.Context) (*workflow.Event, workflow.Ack, err
 	err := w.call(ctx, "recv", func() (string, error) {
 		idx = w.nextIndex(r.topic, r.name)
 		if idx < 0 {
+			if l := w.S.leases[proc]; l != nil && l.ctx != nil && l.ctx.Err() != nil {
+				// released by a role loss, yet the context this Recv was called with is still live: the consumer does not receive under
+				// the context handed out with its role, so losing the role does not stop it (C11, C07)
+				for _, prop := range []string{"C11", "C07"} {
+					w.Mon.violate(prop, "role-loss-stops-work", "receive-continues-after-role-loss:"+strings.SplitN(w.sim.Tok[proc], ":", 2)[0],
+						fmt.Sprintf("%s lost its role while waiting in Recv, but the context it receives under is not the role context: it keeps receiving (and handling, and acknowledging) without the role", w.sim.Tok[proc]))
+				}
+				return "~lost", context.Canceled
+			}
 			panic("sim: receiver " + r.name + " released with nothing to deliver")
 		}
 		e := *w.log[idx]
